@@ -12,7 +12,7 @@ from ..hdl.harness import Refused
 
 ALLF = ["err", "rty", "stall", "lock", "cti", "bte"]
 C08_CLAUSES = ["inv_init", "inv_step", "owner_request_fanout", "owner_response", "nonowner_isolated", "busy_keeps_owner"]
-C09_CLAUSES = ["next_owner_closest", "stays_when_alone", "rank_decreases", "inv_init", "inv_step"]
+C09_CLAUSES = ["next_owner_closest", "stays_when_alone", "held_keeps_owner", "rank_decreases", "inv_init", "inv_step"]
 
 
 def configs(tier, seed, salt=0):
@@ -153,5 +153,7 @@ def check_config(ctx, cfg, which):
                           H + [oi, z3.Not(busy), cycs[j] == 1], frames=fr_all)
             ctx.prove("stays_when_alone", own(f1, i), H + [oi] + [cycs[j] == 0 for j in range(n) if j != i],
                       frames=fr_all)
+            # "exact next-owner function on EVERY transition": a held bus keeps its owner (also C08's busy_keeps_owner)
+            ctx.prove("held_keeps_owner", own(f1, i), H + [oi, busy], frames=fr_all)
             if i == 0 and n >= 3:
                 ctx.canary("fixed_priority", z3.Implies(z3.And(inv(f0), oi, z3.Not(busy), cycs[2] == 1), own(f1, 2)))
